@@ -45,6 +45,29 @@ type runner struct {
 	nta      int
 }
 
+// width is the largest number of consumer calls in flight at once in an event trace; the model's
+// state set grows like 5^width (every interleaving of their statements), so wide traces are judged by
+// the monitors only.
+func width(events []string, callPrefixes ...string) int {
+	cur, max := 0, 0
+	for _, e := range events {
+		for _, p := range callPrefixes {
+			if e == p {
+				cur++
+			}
+		}
+		if strings.HasPrefix(e, "ret:") {
+			cur--
+		}
+		if cur > max {
+			max = cur
+		}
+	}
+	return max
+}
+
+const maxModelWidth = 4
+
 func (r *runner) ask(line string) (string, bool) {
 	if r.drv == nil {
 		return "", false
@@ -99,7 +122,9 @@ func (r *runner) doReady(sc RScenario) {
 	for _, v := range o.Rets {
 		r.res.Hit("ready:ret-" + strings.TrimRight(v, "0123456789"))
 	}
-	if ans, ok := r.ask("lts v=fixed ev=" + strings.Join(o.Events, ",")); ok {
+	if w := width(o.Events, "cg", "cgp", "cy"); w > maxModelWidth {
+		r.res.Hit("ready:model-skipped-width>4")
+	} else if ans, ok := r.ask("lts v=fixed ev=" + strings.Join(o.Events, ",")); ok {
 		r.res.Traces++
 		if !strings.HasPrefix(ans, "accept") {
 			r.res.Disagree("readiness LTS trace inclusion (KitModel.Spiffe.accept, variant fixed)", c, ans, strings.Join(o.Events, ","))
@@ -196,7 +221,9 @@ func (r *runner) doTA(sc TScenario) {
 	if len(o.Pending) > 0 {
 		r.res.Hit("ta:ends-with-pending-calls")
 	}
-	if ans, ok := r.ask("ta ev=" + strings.Join(o.Events, ",")); ok {
+	if w := width(o.Events, "cb", "ca", "cw"); w > maxModelWidth {
+		r.res.Hit("ta:model-skipped-width>4")
+	} else if ans, ok := r.ask("ta ev=" + strings.Join(o.Events, ",")); ok {
 		r.res.Traces++
 		if !strings.HasPrefix(ans, "accept") {
 			r.res.Disagree("trust-bundle source LTS trace inclusion (KitModel.SpiffeTA.accept)", c, ans, strings.Join(o.Events, ","))
